@@ -27,7 +27,7 @@ CHECKS = {
  "C10": dict(cat="fault_enumeration", sec="§4 C10", tech="exhaustive single-fault enumeration: every storage call index of every publish fails once, on the real publish path over a fault-injecting Database wrapper",
    text="For every (prefix history, next batch of the 27-batch alphabet, manager variant {no cache, cache, warmed cache}) the publish is re-run once per storage call with that call failing; afterwards the same and a fresh instance must serve exactly the previous state (full reader suite vs DirModel), no transaction may be open, and a retry must reach the fault-free state. Thorough adds depth-2 prefixes and a second failing publish."),
  "C11": dict(cat="fault_enumeration", sec="§4 C11", tech="exhaustive crash-point enumeration: every subset (bounded) of the captured commit batch applied to the pre-commit snapshot, opened by fresh reader instances",
-   text="Every commit along the bounded histories is captured at the TransactionCommit write; every subset of its non-epoch records (all subsets up to 7/12 records, else all prefixes of 3 orders plus all subsets of size <=2 and >=n-2) is applied to the snapshot and a fresh ReadOnlyDirectory / cached Directory must serve the previous epoch intact (epoch hash, lookups, histories incl. MostRecent, audits) with the unfinished epoch invisible; once the epoch record lands the new epoch is served completely."),
+   text="Every commit along the bounded histories is captured at the TransactionCommit write; every subset of its non-epoch records (all subsets up to 7/9 records, else all prefixes of 3 orders plus all subsets of size <=2 and >=n-2) is applied to the snapshot and a fresh ReadOnlyDirectory / cached Directory must serve the previous epoch intact (epoch hash, lookups, histories incl. MostRecent, audits) with the unfinished epoch invisible; once the epoch record lands the new epoch is served completely."),
  "C12": dict(cat="model_checking", sec="§4 C12", tech="stateless model checking of the implementation: all schedules of 2-3 real publish tasks up to a preemption bound under a controlled scheduler owning every storage/VRF await point",
    text="Real Directory::publish calls run as tokio tasks on clones of one directory under a controlled scheduler (tokio on_thread_park quiescence hook; gates at every Database call and VRF key fetch); every schedule with <=2 (thorough <=3) preemptions is executed to completion and judged: some serial order must explain every returned (epoch, hash) and the final state on the same and a fresh instance."),
  "C13": dict(cat="model_checking", sec="§4 C13", tech="stateless model checking of the implementation: all schedules of reader operations vs publishes / failing commits / the change poller up to a deviation bound, plus an exhaustive reader-lag matrix",
